@@ -19,7 +19,7 @@ PROPS = {
         'bounded': ['conformance'],
     },
 }
-for _k in ('C02', 'C09', 'C10'):
+for _k in ('C02', 'C09', 'C10', 'C18'):
     PROPS[_k] = {'units': ['P'], 'spec_tags': ['wire', 'fold'],
                  'trusted': [TRUSTED_BYTES, TRUSTED_NOM, TRUSTED_STD, TRUSTED_DERIVE, TRUSTED_TOKIO], 'bounded': ['conformance']}
 
